@@ -19,6 +19,13 @@ package neutrino
 //	nd.Stats()                                counters: requests seen by command, connections, held requests
 //	n.Extend(k)                               the honest chain grows by k blocks (followers announce the tip by inv)
 //	n.Reorg(depth, newLen)                    the honest chain drops `depth` blocks and grows `newLen` (> depth) new ones
+//	n.ExtendSilent(k); nd.Announce()          the same growth without announcements; one node announces its tip by inv now
+//	nd.FailNext(stage...)                     per-attempt script: the next connection attempts of the client to this node fail
+//	                                          at the given handshake stage (vnHsRefuse: dial refused, vnHsPreVersion: accepted,
+//	                                          closed after the client's version without an answer, vnHsPreVerack: version sent,
+//	                                          closed before verack, vnHsPostVerack: version + verack sent, closed as soon as the
+//	                                          client's verack arrives); attempts after the script are served normally.
+//	nd.ScriptLen(), nd.Attempts()             script entries not yet consumed / connection attempts seen so far
 //	n.Tip(), n.Honest()                       current honest tip reference / chain view
 //	n.Dial, n.Resolve                         for Config.Dialer / Config.NameResolver (vnStartClient wires them)
 //	c, err := vnStartClient(n, dir, nodes)    NewChainService(temp data dir cloned from a template, n.Params,
@@ -436,6 +443,23 @@ func (n *vnNet) Extend(k int) vnRef {
 	return c.ref(c.tip())
 }
 
+// ExtendSilent grows the honest chain by k blocks without any announcement (the caller lets the nodes announce
+// one by one with Announce).
+func (n *vnNet) ExtendSilent(k int) vnRef {
+	n.mu.Lock()
+	defer n.mu.Unlock()
+	c := n.honest.clone(n.honest.tip())
+	if err := n.grow(c, n.hb, k, 0, false); err != nil {
+		panic(err)
+	}
+	n.branches[n.hb-1].Tip = c.tip()
+	n.honest = c
+	return c.ref(c.tip())
+}
+
+// Announce makes the node send an inv for the tip of its view on its live connections (kinds that announce only).
+func (nd *vnNode) Announce() { nd.announce() }
+
 // Reorg replaces the last depth blocks of the honest chain by newLen new
 // ones (newLen > depth: strictly more work). Returns the new branch.
 func (n *vnNet) Reorg(depth, newLen int) (int, vnRef) {
@@ -576,9 +600,13 @@ func (n *vnNet) Dial(addr net.Addr) (net.Conn, error) {
 			return nil, fmt.Errorf("netsim: dial %v timed out", addr)
 		}
 	}
+	st := nd.nextStage()
+	if st == vnHsRefuse {
+		return nil, fmt.Errorf("netsim: connection refused by %v (scripted)", addr)
+	}
 	local := &net.TCPAddr{IP: net.IPv4(10, 9, 9, 9), Port: 40000 + int(atomic.AddInt32(&vnPortSeq, 1))%20000}
 	a, b := vnPipe(local, nd.Addr)
-	nd.accept(b)
+	nd.acceptStage(b, st)
 	return a, nil
 }
 
@@ -701,6 +729,56 @@ type vnNode struct {
 	MaxHold time.Duration
 	stats   map[string]int
 	nconn   int
+	// script: handshake stage at which the next connection attempts fail (consumed one per attempt)
+	script   []int
+	nattempt int
+}
+
+// Handshake stages at which a scripted connection attempt fails (FailNext).
+const (
+	vnHsRefuse      = 1 // the dial is refused
+	vnHsPreVersion  = 2 // accepted; closed after the client's version message, nothing sent
+	vnHsPreVerack   = 3 // version sent, closed before the verack
+	vnHsPostVerack  = 4 // version and verack sent, closed as soon as the client's verack arrives
+	vnHsStageMin    = vnHsRefuse
+	vnHsStageMax    = vnHsPostVerack
+	vnHsStageNormal = 0
+)
+
+// FailNext appends to the node's per-attempt script: the next connection attempts fail at the given stages, in
+// order; later attempts are served normally.
+func (nd *vnNode) FailNext(stages ...int) {
+	nd.mu.Lock()
+	nd.script = append(nd.script, stages...)
+	nd.mu.Unlock()
+}
+
+// ScriptLen returns the number of scripted failures not yet consumed by a connection attempt.
+func (nd *vnNode) ScriptLen() int {
+	nd.mu.Lock()
+	defer nd.mu.Unlock()
+	return len(nd.script)
+}
+
+// Attempts returns the number of connection attempts (dials that reached the node while it was up) so far.
+func (nd *vnNode) Attempts() int {
+	nd.mu.Lock()
+	defer nd.mu.Unlock()
+	return nd.nattempt
+}
+
+// nextStage consumes one script entry for a connection attempt (0 = serve normally).
+func (nd *vnNode) nextStage() int {
+	nd.mu.Lock()
+	defer nd.mu.Unlock()
+	nd.nattempt++
+	if len(nd.script) == 0 {
+		return vnHsStageNormal
+	}
+	st := nd.script[0]
+	nd.script = nd.script[1:]
+	nd.stats[fmt.Sprintf("hsfail:%d", st)]++
+	return st
 }
 
 type vnNodeConn struct {
@@ -710,6 +788,7 @@ type vnNodeConn struct {
 	ready   int32 // handshake complete
 	garbled bool
 	lastAnn chainhash.Hash
+	failAt  int // scripted handshake failure of this connection (0 = none)
 }
 
 // AddNode adds a node (down until SetUp(true)). For the kinds lighter and
@@ -903,8 +982,10 @@ func (nd *vnNode) count(k string) {
 	nd.mu.Unlock()
 }
 
-func (nd *vnNode) accept(c *vnConn) {
-	nc := &vnNodeConn{nd: nd, c: c}
+func (nd *vnNode) accept(c *vnConn) { nd.acceptStage(c, vnHsStageNormal) }
+
+func (nd *vnNode) acceptStage(c *vnConn, failAt int) {
+	nc := &vnNodeConn{nd: nd, c: c, failAt: failAt}
 	nd.mu.Lock()
 	nd.conns[nc] = struct{}{}
 	nd.nconn++
@@ -993,6 +1074,10 @@ func (nc *vnNodeConn) handle(msg wire.Message, released bool) {
 	b := nd.Behaviour()
 	switch m := msg.(type) {
 	case *wire.MsgVersion:
+		if nc.failAt == vnHsPreVersion {
+			nc.close()
+			return
+		}
 		c := nd.chain()
 		svc := wire.SFNodeNetwork | wire.SFNodeWitness | wire.SFNodeCF
 		if b.Kind == "nocf" {
@@ -1008,9 +1093,17 @@ func (nc *vnNodeConn) handle(msg wire.Message, released bool) {
 		v.Services = svc
 		v.UserAgent = "/netsim:" + b.Kind + "/"
 		_ = nc.send(v)
+		if nc.failAt == vnHsPreVerack {
+			nc.close()
+			return
+		}
 		_ = nc.send(wire.NewMsgVerAck())
 		return
 	case *wire.MsgVerAck:
+		if nc.failAt == vnHsPostVerack {
+			nc.close()
+			return
+		}
 		atomic.StoreInt32(&nc.ready, 1)
 		return
 	case *wire.MsgPing:
